@@ -67,7 +67,11 @@ pub fn jit_point(thorough: bool, seed: u64) -> Report {
                 let vt = vm.point_tape(Default::default());
                 let jt = jit.point_tape(std::mem::take(&mut storage));
                 let ys: Vec<f32> = if two_inputs { g.clone() } else { vec![0.0] };
-                for &x in &g {
+                let mut xs = g.clone();
+                if case.kind == Kind::Reg {
+                    xs.extend(boundary_values());
+                }
+                for &x in &xs {
                     for &y in &ys {
                         r.cases += 1;
                         let want = vev.eval(&vt, &[x, y]).map(|(o, _)| o.to_vec());
